@@ -12,6 +12,9 @@
 #include <condition_variable>
 #include <cds/details/aligned_type.h>
 #include <cds/algo/atomic.h>
+#if defined(KHIZMAX_LIBCDS_VERIF)
+#   include <cds_verif/sync.h>
+#endif
 
 namespace cds { namespace urcu {
 
@@ -30,9 +33,16 @@ namespace cds { namespace urcu {
         typedef Buffer  buffer_type ;   ///< Buffer type
     private:
         //@cond
+#   if defined(KHIZMAX_LIBCDS_VERIF)
+        // the reclamation thread and its synchronisation are participants of the model-checking scheduler
+        typedef cds_verif::thread             thread_type;
+        typedef cds_verif::mutex              mutex_type;
+        typedef cds_verif::condition_variable condvar_type;
+#   else
         typedef std::thread             thread_type;
         typedef std::mutex              mutex_type;
         typedef std::condition_variable condvar_type;
+#   endif
         typedef std::unique_lock< mutex_type >  unique_lock;
 
         class dispose_thread_starter: public thread_type
